@@ -1649,7 +1649,7 @@ def guarded_by_variant(f, ve, loc):
     return f.forward_paths_hit([Loc(mine[1], 0)], [loc], blockers=[here]) is not None or f.edge_dominates(ve['edge'], loc)
 
 
-def must_have_bits(f, bits, at, field='flags', struct_suffix=None):
+def must_have_bits(f, bits, at, field='flags', struct_suffix=None, start=None):
     """forward must-analysis at bit level: does the `field` of the (one) struct it belongs to have all of `bits` set
     at location `at` on every path from the entry?  Values are followed through integer locals, copies, casts,
     `|`, `&`, struct literals and field stores — so `p.flags = A | B; if c { p.flags |= C }` and
@@ -1710,12 +1710,23 @@ def must_have_bits(f, bits, at, field='flags', struct_suffix=None):
     n = len(f.blocks)
     out = [None] * n
     inn = [None] * n
-    inn[0] = set()
-    work = deque([0])
+    # start: (location, keys known to have the bits right after the statement there) — "does what was set here survive?"
+    sb, si = (start[0][0], start[0][1] + 1) if start is not None else (0, 0)
+    inn[sb] = set(start[1]) if start is not None else set()
+    work = deque([sb])
+    first = True
     while work:
         b = work.popleft()
         st = set(inn[b])
-        for s_ in f.blocks[b]['stmts']:
+        stmts = f.blocks[b]['stmts']
+        if first and start is not None:
+            if at[0] == b and at[1] >= si:
+                for s_ in stmts[si:at[1]]:
+                    st = xfer_stmt(st, s_)
+                return FIELD in st
+            stmts = stmts[si:]
+        first = False
+        for s_ in stmts:
             st = xfer_stmt(st, s_)
         st = xfer_term(st, f.blocks[b]['term'])
         if out[b] is not None and out[b] == st:
@@ -1731,7 +1742,7 @@ def must_have_bits(f, bits, at, field='flags', struct_suffix=None):
             elif out[s2] is None:
                 work.append(s2)
     if inn[at[0]] is None:
-        return False
+        return False if start is None else True     # (from `start` the location is not reachable: nothing to lose)
     st = set(inn[at[0]])
     for s_ in f.blocks[at[0]]['stmts'][:at[1]]:
         st = xfer_stmt(st, s_)
